@@ -72,6 +72,7 @@ pub fn seq_case_from_bytes(data: &[u8]) -> SeqCase {
         hash: pick(u, &[HashMode::Identity, HashMode::Identity, HashMode::Constant, HashMode::Mod2, HashMode::Default]),
         weight_mode: if byte(u) % 3 == 0 { WeightMode::Default } else { WeightMode::Table((0..(1 + byte(u) % 4)).map(|_| 1 + (byte(u) % 60) as i64).collect()) },
         start_ns: (byte(u) % 8) as u64 * 1_000_000_000 + pick(u, &[0u64, 999_999_999, 500_000_000]),
+        noise_readers: 0,
     };
     let mut ops = Vec::new();
     while !u.is_empty() && ops.len() < 80 {
